@@ -311,7 +311,9 @@ Theorem check_means_the_property : forall c,
      Z.of_nat (count (fun x => on_conn (econn e) x && begun_ok x) (olog c)) =
      Z.of_nat (count (fun x => on_conn (econn e) x && ent_end x) (olog c)) +
      open_on (econn e) (cscripts c) (oths c)) /\
-  ofinal c = Z.of_nat (count lostb (olog c)) + Z.of_nat (length (filter still_open (oths c))).
+  ofinal c = Z.of_nat (count lostb (olog c)) + Z.of_nat (length (filter still_open (oths c))) /\
+  (* no body handed to a Transact on a transaction's own session was run *)
+  (forall o, In o (oths c) -> o_nest o = 0).
 Proof. exact prop_ok_meaning_l. Qed.
 Print Assumptions check_means_the_property.
 
